@@ -1,16 +1,21 @@
 /-
   C19 — `--out` writes exactly the described tree, or changes nothing.
 
-  Property theorems only (helper lemmas: Arrai/C19/Lemmas.lean).  `Impl` is the transliteration of
-  pkg/arrai/out.go, `Spec.valid` / `Spec.apply` the specification, `T` the file-system tree
-  (equality of trees is extensional: the same files with the same bytes and the same directories).
+  Property theorems only (helper lemmas: Arrai/C19/{Lemmas,ExactLemmas,Faults}.lean).  `Impl` is the
+  transliteration of pkg/arrai/out.go, `Spec.valid` / `Spec.apply` the specification, `T` the file-system
+  tree (equality of trees is extensional: the same files with the same bytes and the same directories).
 
-  The theorems about `--out=dir:` carry the hypothesis `v.plain`: every dict key is refused or names a
-  single element, and sibling elements are distinct.  Without it they are false of today's code
-  (keys such as 'a/b' are joined as paths; known finding KF-out-key-with-separator): see the
-  `_full` statements and their `_full_false` refutations.
+  Keys may denote paths of several elements ('a/b'; pinned by cmd/arrai TestEvalOutDir).  The code joins
+  them to the directory without creating or checking the intermediate directories, and validates every
+  entry against the state before the run.  `aliasOrMissingParent v cur` (decidable, Arrai/C19/Exact.lean) is
+  the class on which this matters: two sibling keys denote the same path or one a path below the other,
+  or a key names an entry whose parent directory does not exist when it is written.  Outside the class
+  the property holds at full strength (`out_refines`, `atomic`, `dry_predicts`); inside it the theorems
+  `dry_exact`, `out_refines_seq`, `missing_parent_exact` and `alias_order_matters` say what the code does,
+  and `atomic_full_false` … exhibit the violations (known finding KF-out-key-with-separator).
 -/
-import Arrai.C19.Lemmas
+import Arrai.C19.ExactLemmas
+import Arrai.C19.Faults
 
 namespace Arrai.C19.Theorems
 open Arrai.C19 Arrai.C19.Impl
@@ -44,38 +49,54 @@ theorem outputEntry_dict_is_outputTupleDir (e : Key × Val) (es : List (Key × V
 
 /-! ### The dry pass -/
 
-/-- dry_predicts: the validation pass changes nothing and succeeds exactly on the valid descriptions
+/-- dry_exact: for EVERY description, the validation pass changes nothing and returns exactly `Sem.dryDir`:
+each entry is judged on what `Stat` finds at its joined path (a missing or non-directory intermediate
+element just makes the target look absent). -/
+theorem dry_exact (v : Val) (arg : Path) (fs : FS) :
+    Runs (outputTupleDir v [] arg true) fs (okIf (Sem.dryDir v (get arg fs))) fs :=
+  dryx_dir v arg fs
+
+/-- dry_predicts: outside the class the validation pass succeeds exactly on the valid descriptions
 (so the writing pass cannot discover an invalid entry after it has deleted or written something). -/
-theorem dry_predicts_partial (v : Val) (hpl : v.plain = true) (arg : Path) (fs : FS) :
+theorem dry_predicts (v : Val) (arg : Path) (fs : FS) (hcl : aliasOrMissingParent v (get arg fs) = false) :
     ∃ r, Runs (outputTupleDir v [] arg true) fs r fs ∧ (r = .ok () ↔ Spec.validDir v (get arg fs) = true) := by
-  refine ⟨_, dry_dir v hpl arg fs, ?_⟩
+  have hr : regularDir v (get arg fs) = true := by simpa [aliasOrMissingParent] using hcl
+  refine ⟨_, dryx_dir v arg fs, ?_⟩
+  rw [dry_eq_valid_dir v _ hr]
   cases Spec.validDir v (get arg fs) <;> simp [okIf]
 
 /-! ### `--out=dir:PATH` -/
 
-private theorem dir_runs_valid (v : Val) (hpl : v.plain = true) (arg : Path) (fs : FS)
-    (hv : Spec.valid v (get arg fs) = true) (hc : Creatable arg fs) :
-    Runs (outputValue [] v .dir arg) fs (.ok ()) (alter arg (fun _ => Spec.apply v (get arg fs)) fs) := by
-  simp only [Spec.valid, Bool.and_eq_true] at hv
+/-- out_refines_seq (exact, no class hypothesis): if the validation pass accepts and every entry in turn
+— on the directory as the entries before it have left it — has its parent directories and can be written,
+the command succeeds and PATH holds `Spec.apply` (entries applied in enumeration order). -/
+theorem out_refines_seq (v : Val) (arg : Path) (fs : FS) (hi : Spec.isDictOrEmpty v = true)
+    (hd : Sem.dryDir v (get arg fs) = true) (hok : Sem.okDir v (get arg fs) = true) (hc : Creatable arg fs) :
+    outcome v .dir arg fs = .ok () ∧
+    final v .dir arg fs = alter arg (fun _ => Spec.apply v (get arg fs)) fs := by
+  apply run_of_runs
   unfold outputValue
-  simp only [hv.1, if_true]
-  have hd := dry_dir v hpl arg fs
-  rw [hv.2] at hd
-  exact Runs.bind_ok hd (real_dir v hpl arg fs hv.2 (hpar_of_creatable hc))
+  simp only [hi, if_true]
+  have h1 := dryx_dir v arg fs
+  rw [hd] at h1
+  exact Runs.bind_ok h1 (realx_dir v arg fs hok (hpar_of_creatable hc))
 
-/-- out_refines: on a valid description over a creatable PATH the command succeeds and the file system
-becomes the old one with what is at PATH replaced by `Spec.apply` of the description and of what was there. -/
-theorem out_refines_partial (v : Val) (hpl : v.plain = true) (arg : Path) (fs : FS)
+/-- out_refines: outside the class, on a valid description over a creatable PATH the command succeeds and
+the file system becomes the old one with what is at PATH replaced by `Spec.apply`. -/
+theorem out_refines (v : Val) (arg : Path) (fs : FS) (hcl : aliasOrMissingParent v (get arg fs) = false)
     (hv : Spec.valid v (get arg fs) = true) (hc : Creatable arg fs) :
     outcome v .dir arg fs = .ok () ∧
-    final v .dir arg fs = alter arg (fun _ => Spec.apply v (get arg fs)) fs :=
-  run_of_runs (dir_runs_valid v hpl arg fs hv hc)
+    final v .dir arg fs = alter arg (fun _ => Spec.apply v (get arg fs)) fs := by
+  have hr : regularDir v (get arg fs) = true := by simpa [aliasOrMissingParent] using hcl
+  simp only [Spec.valid, Bool.and_eq_true] at hv
+  exact out_refines_seq v arg fs hv.1 (by rw [dry_eq_valid_dir v _ hr]; exact hv.2)
+    (ok_of_valid_dir v _ hr hv.2) hc
 
 /-- … hence the tree under PATH is exactly the specified one … -/
-theorem out_inside_exact (v : Val) (hpl : v.plain = true) (arg : Path) (fs : FS)
+theorem out_inside_exact (v : Val) (arg : Path) (fs : FS) (hcl : aliasOrMissingParent v (get arg fs) = false)
     (hv : Spec.valid v (get arg fs) = true) (hc : Creatable arg fs) :
     get arg (final v .dir arg fs) = Spec.apply v (get arg fs) := by
-  rw [(out_refines_partial v hpl arg fs hv hc).2]
+  rw [(out_refines v arg fs hcl hv hc).2]
   apply get_alter_self
   rcases hc with h | h
   · apply reach_of_dir
@@ -85,24 +106,24 @@ theorem out_inside_exact (v : Val) (hpl : v.plain = true) (arg : Path) (fs : FS)
   · exact reach_of_parentIsDir arg fs h
 
 /-- … and nothing that is not at or below PATH is touched (file bytes, directories, absences). -/
-theorem out_outside_untouched (v : Val) (hpl : v.plain = true) (arg : Path) (fs : FS)
-    (hv : Spec.valid v (get arg fs) = true) (hc : Creatable arg fs) (q : Path) (hq : ¬ arg <+: q) :
-    view (get q (final v .dir arg fs)) = view (get q fs) := by
-  rw [(out_refines_partial v hpl arg fs hv hc).2]
-  exact view_get_alter_outside arg q _ fs hq
+theorem out_outside_untouched (v : Val) (arg : Path) (fs : FS) (q : Path) (hq : ¬ arg <+: q) :
+    view (get q (final v .dir arg fs)) = view (get q fs) :=
+  within_outputValue [] v .dir arg _ q hq
 
-/-- atomic: if the description is invalid anywhere (or PATH cannot be created) the command fails and the
-file system is unchanged: nothing created, overwritten or deleted. -/
-theorem atomic_partial (v : Val) (hpl : v.plain = true) (arg : Path) (fs : FS)
+/-- atomic: outside the class, if the description is invalid anywhere (or PATH cannot be created) the command
+fails and the file system is unchanged: nothing created, overwritten or deleted. -/
+theorem atomic (v : Val) (arg : Path) (fs : FS) (hcl : aliasOrMissingParent v (get arg fs) = false)
     (h : ¬ (Spec.valid v (get arg fs) = true ∧ Creatable arg fs)) :
     (∃ e, outcome v .dir arg fs = .err e) ∧ final v .dir arg fs = fs := by
+  have hr : regularDir v (get arg fs) = true := by simpa [aliasOrMissingParent] using hcl
   have key : ∃ e, Runs (outputValue [] v .dir arg) fs (.err e) fs := by
     unfold outputValue
     cases hi : Spec.isDictOrEmpty v with
     | false => exact ⟨.invalid, by simpa using Runs.fail _ fs⟩
     | true =>
       simp only [if_true]
-      have hd := dry_dir v hpl arg fs
+      have hd := dryx_dir v arg fs
+      rw [dry_eq_valid_dir v _ hr] at hd
       cases hvd : Spec.validDir v (get arg fs) with
       | false => rw [hvd] at hd; exact ⟨.invalid, Runs.bind_err hd⟩
       | true =>
@@ -136,6 +157,141 @@ theorem atomic_partial (v : Val) (hpl : v.plain = true) (arg : Path) (fs : FS)
         | other _ => simp [Spec.isDictOrEmpty] at hi
   obtain ⟨e, hr⟩ := key
   exact ⟨⟨e, (run_of_runs hr).1⟩, (run_of_runs hr).2⟩
+
+/-- every violation of atomicity lies in the class: an invalid description (or an uncreatable PATH) on which
+the command succeeds, or after which the file system differs, has aliasing keys or a missing parent -/
+theorem atomic_violations_in_class (v : Val) (arg : Path) (fs : FS)
+    (h : ¬ (Spec.valid v (get arg fs) = true ∧ Creatable arg fs))
+    (hviol : outcome v .dir arg fs = .ok () ∨ final v .dir arg fs ≠ fs) :
+    aliasOrMissingParent v (get arg fs) = true := by
+  cases hcl : aliasOrMissingParent v (get arg fs) with
+  | true => rfl
+  | false =>
+    obtain ⟨⟨e, he⟩, hf⟩ := atomic v arg fs hcl h
+    rcases hviol with h1 | h1
+    · rw [he] at h1; cases h1
+    · exact absurd hf h1
+
+/-- descriptions whose keys all name a single element, pairwise distinct (the former blanket hypothesis
+`v.plain`), are outside the class — over any pre-existing state -/
+theorem plain_outside_class (v : Val) (cur : T) (h : v.plain = true) : aliasOrMissingParent v cur = false := by
+  simp [aliasOrMissingParent, regular_of_plain_dir v cur h]
+
+/-! ### Inside the class: what the code does -/
+
+/-- missing_parent_exact: PATH is a directory; the entries `pre` can be written one after the other; the next
+entry is a file or a non-empty dict whose key names a path with a parent directory that does not exist at
+that moment.  Then (the validation pass having accepted) the command fails with an I/O error, the entries
+`pre` are written exactly as specified, and nothing else has happened. -/
+theorem missing_parent_exact (pre post : List (Key × Val)) (k : Key) (w : Val) (rel : List Name) (arg : Path)
+    (fs : FS) (f : Name → T) (hg : get arg fs = .dir f)
+    (hd : Sem.dryDir (.dict (pre ++ (k, w) :: post)) (.dir f) = true)
+    (hpre : Sem.okEntries pre f = true) (hrel : k.rel = some rel)
+    (hmiss : parentsExist rel (Spec.applyEntries pre f) = false) (hw : needsParent w = true) :
+    outcome (.dict (pre ++ (k, w) :: post)) .dir arg fs = .err .io ∧
+    final (.dict (pre ++ (k, w) :: post)) .dir arg fs = alter arg (fun _ => .dir (Spec.applyEntries pre f)) fs := by
+  apply run_of_runs
+  unfold outputValue
+  simp only [Spec.isDictOrEmpty, if_true]
+  have h1 := dryx_dir (.dict (pre ++ (k, w) :: post)) arg fs
+  rw [hg, hd] at h1
+  refine Runs.bind_ok h1 ?_
+  simp only [outputTupleDir]
+  have hhead : Runs (dirHead [] arg false) fs (.ok ()) fs := by
+    have := real_dirHead arg fs (by simp [hg, Spec.notFile, statOf]) (by simp [hg, T.present])
+    rw [hg] at this
+    simp only [children] at this
+    have e : alter arg (fun _ => T.dir f) fs = fs := by rw [← hg]; exact alter_get_self arg fs
+    rwa [e] at this
+  refine Runs.bind_ok hhead ?_
+  have hne := rel_ne_nil hrel
+  have hreach : Reach arg fs := reach_of_dir arg fs (by simp [hg, statOf])
+  have hg1 : get arg (alter arg (fun _ => T.dir (Spec.applyEntries pre f)) fs) = .dir (Spec.applyEntries pre f) :=
+    get_alter_self arg _ fs hreach
+  refine realx_entries_stop pre post k w rel arg fs _ f .io hg hpre hrel ?_
+  apply outputEntry_no_parent w _ _ hw (by simp [hne])
+  rw [parentIsDir_append_eq arg rel _ _ hg1 hne]
+  exact hmiss
+
+/-- the names `a`, `b`, `c`, `o` and the key `a/b` -/
+private def kA : Name := [97]
+private def kB : Name := [98]
+private def kC : Name := [99]
+private def kO : Name := [111]
+private def keyAB : Key := .str [97, 47, 98]
+
+/-- `{'a/b': 'x'}` -/
+private def deep : Val := .dict [(keyAB, .data false [120])]
+/-- `{'c': 'x', 'a/b': 'y'}` -/
+private def deep2 : Val := .dict [(.str kC, .data false [120]), (keyAB, .data false [121])]
+/-- `{'a': {'b': 'y'}, 'a/b': 'x'}` and the same entries in the other order -/
+private def aliasAB : Val := .dict [(.str kA, .dict [(.str kB, .data false [121])]), (keyAB, .data false [120])]
+private def aliasBA : Val := .dict [(keyAB, .data false [120]), (.str kA, .dict [(.str kB, .data false [121])])]
+/-- `/o` is an empty directory -/
+private def fsEmptyO : FS := T.ofList [(kO, T.ofList [])]
+/-- `/o/a` is a file -/
+private def fsFileA : FS := T.ofList [(kO, T.ofList [(kA, .file [1])])]
+
+/-- alias_order_matters: `'a/b'` and a sibling dict `'a'` containing `'b'` denote the same file.  Both orders pass
+the validation pass (each entry is judged on the state before the run).  Enumerated with `'a'` first, the
+directory exists when `'a/b'` is written: success, and `a/b` holds the bytes of the entry written last.
+Enumerated with `'a/b'` first, its parent does not exist: I/O error.  (Go enumerates a dict in hash order.) -/
+theorem alias_order_matters :
+    aliasOrMissingParent aliasAB (get [kO] fsEmptyO) = true ∧
+    outcome aliasAB .dir [kO] fsEmptyO = .ok () ∧
+    view (get [kO, kA, kB] (final aliasAB .dir [kO] fsEmptyO)) = some (some [120]) ∧
+    outcome aliasBA .dir [kO] fsEmptyO = .err .io ∧
+    view (get [kO, kA] (final aliasBA .dir [kO] fsEmptyO)) = none := by
+  refine ⟨by decide, by decide +kernel, by decide +kernel, by decide +kernel, by decide +kernel⟩
+
+/-! ### Full-strength statements without the class hypothesis, and their refutations -/
+
+def out_refines_full : Prop :=
+  ∀ (v : Val) (arg : Path) (fs : FS), Spec.valid v (get arg fs) = true → Creatable arg fs →
+    outcome v .dir arg fs = .ok () ∧ final v .dir arg fs = alter arg (fun _ => Spec.apply v (get arg fs)) fs
+
+def atomic_full : Prop :=
+  ∀ (v : Val) (arg : Path) (fs : FS), ¬ (Spec.valid v (get arg fs) = true ∧ Creatable arg fs) →
+    (∃ e, outcome v .dir arg fs = .err e) ∧ final v .dir arg fs = fs
+
+def dry_predicts_full : Prop :=
+  ∀ (v : Val) (arg : Path) (fs : FS),
+    ∃ r, Runs (outputTupleDir v [] arg true) fs r fs ∧ (r = .ok () ↔ Spec.validDir v (get arg fs) = true)
+
+/-- `{'a/b': 'x'}` is valid over an empty directory (it describes the file a/b), but nobody creates
+the directory `a`: Create fails after the validation pass has accepted the description -/
+theorem out_refines_full_false : ¬ out_refines_full := by
+  intro h
+  have := (h deep [kO] fsEmptyO (by decide) (Or.inl (by decide))).1
+  revert this
+  decide
+
+/-- `{'c': 'x', 'a/b': 'y'}` over a directory where `a` is a file is invalid, yet `c` is written before
+the command fails -/
+theorem atomic_full_false : ¬ atomic_full := by
+  intro h
+  have := (h deep2 [kO] fsFileA (fun hv => absurd hv.1 (by decide))).2
+  have h2 : view (get [kO, kC] (final deep2 .dir [kO] fsFileA)) = view (get [kO, kC] fsFileA) := by rw [this]
+  revert h2
+  decide
+
+/-- … and the validation pass accepts `{'a/b': 'x'}` over a file `a`, which is not valid -/
+theorem dry_predicts_full_false : ¬ dry_predicts_full := by
+  intro h
+  obtain ⟨r, hr, hiff⟩ := h deep [kO] fsFileA
+  obtain ⟨n', e⟩ := hr 0 false
+  have h1 : (outputTupleDir deep [] [kO] true ⟨fsFileA, 0, false⟩).1 = .ok () := by decide
+  rw [e] at h1
+  have : Spec.validDir deep (get [kO] fsFileA) = true := hiff.1 h1
+  revert this
+  decide
+
+/-- the three witnesses above are in the class (as `atomic_violations_in_class` demands of the second) -/
+theorem witnesses_in_class :
+    aliasOrMissingParent deep (get [kO] fsEmptyO) = true ∧
+    aliasOrMissingParent deep2 (get [kO] fsFileA) = true ∧
+    aliasOrMissingParent deep (get [kO] fsFileA) = true := by
+  refine ⟨by decide, by decide, by decide⟩
 
 /-! ### `--out=file:PATH` -/
 
@@ -184,7 +340,25 @@ theorem file_mode_refuses (v : Val) (mode : Mode) (arg : Path) (fs : FS) (hm : m
   obtain ⟨e, hr⟩ := key
   exact ⟨⟨e, (run_of_runs hr).1⟩, (run_of_runs hr).2⟩
 
-/-! ### Error reporting -/
+
+/-- an empty result (`{}`, `''`, `<<>>`) makes PATH an empty file -/
+theorem file_mode_empty (b : Bool) (arg : Path) (fs : FS)
+    (hnd : statOf (get arg fs) ≠ .isDir) (hpar : parentIsDir arg fs = true) :
+    outcome (.data b []) .file arg fs = .ok () ∧ get arg (final (.data b []) .file arg fs) = .file [] := by
+  have := file_mode_writes (.data b []) [] arg fs rfl hnd hpar
+  exact ⟨this.1, this.2.2⟩
+
+/-- PATH is a directory: refused, nothing changes (in particular the directory and its content stay) -/
+theorem file_mode_target_is_directory (v : Val) (arg : Path) (fs : FS) (h : statOf (get arg fs) = .isDir) :
+    (∃ e, outcome v .file arg fs = .err e) ∧ final v .file arg fs = fs :=
+  file_mode_refuses v .file arg fs (by decide) (.inr (.inr (.inl h)))
+
+/-- the parent of PATH is missing or is not a directory: the command fails, nothing is created -/
+theorem file_mode_parent_missing (v : Val) (arg : Path) (fs : FS) (h : parentIsDir arg fs = false) :
+    (∃ e, outcome v .file arg fs = .err e) ∧ final v .file arg fs = fs :=
+  file_mode_refuses v .file arg fs (by decide) (.inr (.inr (.inr h)))
+
+/-! ### Faults -/
 
 /-- faults_reported: whatever the description, the mode and the set `φ` of failing calls — if any
 file-system call (Stat, Mkdir, Create, Write, Sync, Close, RemoveAll) fails, the command reports an error -/
@@ -194,84 +368,51 @@ theorem faults_reported (φ : List Nat) (v : Val) (mode : Mode) (arg : Path) (fs
   · simp at h'
   · exact h'
 
-/-! ### Full-strength statements, and why they fail today (KF-out-key-with-separator) -/
+/-- no_fault_is_fault_free: faults are the only source of divergence — a run in which no injected fault fires
+returns the outcome, leaves the file system and has made the calls of the fault-free run -/
+theorem no_fault_is_fault_free (φ : List Nat) (v : Val) (mode : Mode) (arg : Path) (fs : FS)
+    (h : (run φ v mode arg fs).2.fired = false) : run φ v mode arg fs = run [] v mode arg fs :=
+  (faith_outputValue φ v mode arg).2 _ h
 
-def out_refines_full : Prop :=
-  ∀ (v : Val) (arg : Path) (fs : FS), Spec.valid v (get arg fs) = true → Creatable arg fs →
-    outcome v .dir arg fs = .ok () ∧ final v .dir arg fs = alter arg (fun _ => Spec.apply v (get arg fs)) fs
-
-def atomic_full : Prop :=
-  ∀ (v : Val) (arg : Path) (fs : FS), ¬ (Spec.valid v (get arg fs) = true ∧ Creatable arg fs) →
-    (∃ e, outcome v .dir arg fs = .err e) ∧ final v .dir arg fs = fs
-
-def dry_predicts_full : Prop :=
-  ∀ (v : Val) (arg : Path) (fs : FS),
-    ∃ r, Runs (outputTupleDir v [] arg true) fs r fs ∧ (r = .ok () ↔ Spec.validDir v (get arg fs) = true)
-
-/-- the names `a`, `b`, `c`, `o` and the key `a/b` -/
-private def kA : Name := [97]
-private def kB : Name := [98]
-private def kC : Name := [99]
-private def kO : Name := [111]
-private def keyAB : Key := .str [97, 47, 98]
-
-/-- `{'a/b': 'x'}` -/
-private def deep : Val := .dict [(keyAB, .data false [120])]
-/-- `{'c': 'x', 'a/b': 'y'}` -/
-private def deep2 : Val := .dict [(.str kC, .data false [120]), (keyAB, .data false [121])]
-/-- `/o` is an empty directory -/
-private def fsEmptyO : FS := T.ofList [(kO, T.ofList [])]
-/-- `/o/a` is a file -/
-private def fsFileA : FS := T.ofList [(kO, T.ofList [(kA, .file [1])])]
-
-/-- `{'a/b': 'x'}` is valid over an empty directory (it describes the file a/b), but nobody creates
-the directory `a`: Create fails after the validation pass has accepted the description -/
-theorem out_refines_full_false : ¬ out_refines_full := by
-  intro h
-  have := (h deep [kO] fsEmptyO (by decide) (Or.inl (by decide))).1
-  revert this
-  decide
-
-/-- `{'c': 'x', 'a/b': 'y'}` over a directory where `a` is a file is invalid, yet `c` is written before
-the command fails -/
-theorem atomic_full_false : ¬ atomic_full := by
-  intro h
-  have := (h deep2 [kO] fsFileA (fun hv => absurd hv.1 (by decide))).2
-  have h2 : view (get [kO, kC] (final deep2 .dir [kO] fsFileA)) = view (get [kO, kC] fsFileA) := by rw [this]
-  revert h2
-  decide
-
-/-- … and the validation pass accepts `{'a/b': 'x'}` over a file `a`, which is not valid -/
-theorem dry_predicts_full_false : ¬ dry_predicts_full := by
-  intro h
-  obtain ⟨r, hr, hiff⟩ := h deep [kO] fsFileA
-  obtain ⟨n', e⟩ := hr 0 false
-  have h1 : (outputTupleDir deep [] [kO] true ⟨fsFileA, 0, false⟩).1 = .ok () := by decide
-  rw [e] at h1
-  have : Spec.validDir deep (get [kO] fsFileA) = true := hiff.1 h1
-  revert this
-  decide
+/-- faults_outside_untouched: whatever fails and whenever, in both modes and for every description, nothing
+that is not at or below PATH is touched -/
+theorem faults_outside_untouched (φ : List Nat) (v : Val) (mode : Mode) (arg : Path) (fs : FS) (q : Path)
+    (hq : ¬ arg <+: q) : view (get q (run φ v mode arg fs).2.fs) = view (get q fs) :=
+  within_outputValue φ v mode arg _ q hq
 
 /-! ### The hypotheses are satisfiable by non-trivial values -/
 
-/-- `{'a': 'x', 'b': (ifExists: 'replace', dir: {'c': <<1>>})}` over `/o` holding a file `b`: plain, valid,
-creatable — the run succeeds, writes `a`, and replaces the file `b` by a directory with the file `c` -/
+/-- `{'a': 'x', 'b': (ifExists: 'replace', dir: {'c': <<1>>})}` over `/o` holding a file `b`: outside the class,
+valid, creatable — the run succeeds, writes `a`, and replaces the file `b` by a directory with the file `c` -/
 example :
     let v : Val := .dict [(.str kA, .data false [120]),
       (.str kB, .tup (some .replace) (some (.dict [(.str kC, .data true [1])])) none)]
     let fs : FS := T.ofList [(kO, T.ofList [(kB, .file [7])])]
-    v.plain = true ∧ Spec.valid v (get [kO] fs) = true ∧ Creatable [kO] fs ∧
+    aliasOrMissingParent v (get [kO] fs) = false ∧ Spec.valid v (get [kO] fs) = true ∧ Creatable [kO] fs ∧
     outcome v .dir [kO] fs = .ok () ∧
     view (get [kO, kA] (final v .dir [kO] fs)) = some (some [120]) ∧
     view (get [kO, kB, kC] (final v .dir [kO] fs)) = some (some [1]) := by
   refine ⟨by decide, by decide, Or.inl (by decide), by decide +kernel, by decide +kernel, by decide +kernel⟩
 
-/-- an invalid plain description (a number at depth 2) over existing content: refused, nothing changes -/
+/-- a key of two elements whose parent exists is outside the class: `{'a/b': 'x'}` over `/o/a/` is written -/
+example :
+    let fs : FS := T.ofList [(kO, T.ofList [(kA, T.ofList [])])]
+    aliasOrMissingParent deep (get [kO] fs) = false ∧ Spec.valid deep (get [kO] fs) = true ∧
+    outcome deep .dir [kO] fs = .ok () ∧ view (get [kO, kA, kB] (final deep .dir [kO] fs)) = some (some [120]) := by
+  refine ⟨by decide, by decide, by decide +kernel, by decide +kernel⟩
+
+/-- an invalid description (a number at depth 2) over existing content: outside the class, refused -/
 example :
     let v : Val := .dict [(.str kA, .data false [120]), (.str kB, .dict [(.str kC, .other false)])]
     let fs : FS := T.ofList [(kO, T.ofList [(kB, .file [7])])]
-    v.plain = true ∧ ¬ (Spec.valid v (get [kO] fs) = true ∧ Creatable [kO] fs) := by
+    aliasOrMissingParent v (get [kO] fs) = false ∧ ¬ (Spec.valid v (get [kO] fs) = true ∧ Creatable [kO] fs) := by
   refine ⟨by decide, fun h => absurd h.1 (by decide)⟩
+
+/-- missing_parent_exact applies to `{'c': 'x', 'a/b': 'y'}` over the empty `/o`: `c` is written, then the I/O error -/
+example :
+    outcome (.dict ([(.str kC, .data false [120])] ++ (keyAB, .data false [121]) :: [])) .dir [kO] fsEmptyO = .err .io :=
+  (missing_parent_exact [(.str kC, .data false [120])] [] keyAB (.data false [121]) [kA, kB] [kO] fsEmptyO
+    (fun k => lookupL k []) rfl (by decide) (by decide) (by decide) (by decide) (by decide)).1
 
 /-- a fault that fires: the Close of the only file (call 7) -/
 example : (run [7] (.dict [(.str kA, .data false [120])]) .dir [kO] fsEmptyO).2.fired = true := by decide
